@@ -546,3 +546,15 @@ def parent_main(prop, tier, seed, nshards=NSHARDS_DEFAULT, only=None, budget_s=N
 if __name__ == "__main__":
     if len(sys.argv) > 1 and sys.argv[1] == "worker":
         worker_main(sys.argv[2:])
+    elif len(sys.argv) > 1 and sys.argv[1] == "replay":
+        _prop, _path = sys.argv[2], sys.argv[3]
+        _f = replay_one(_prop, _path)
+        if _f is None:
+            print("replay passes: the recorded case no longer fails (property=%s)" % _prop)
+            sys.exit(0)
+        if _f["kind"] == "violation":
+            print("VIOLATION property=%s replay=%s" % (_prop, _path))
+            print("  sub-check=%s  %s" % (_f.get("sub"), _f.get("message")))
+            sys.exit(1)
+        print("HARNESS-ERROR property=%s %s" % (_prop, _f.get("message")))
+        sys.exit(2)
